@@ -37,6 +37,12 @@ CLAIMED = {
         "time.Time arithmetic and calendar trusted; oracle constants from the property statement",
         "DESIGN.md 4.6",
     ),
+    "C07": (
+        "static obligation generation over the root-reachable call graph (index/slice bounds, bit-read extents lifted to call sites, division, shifts, nil dereference, type assertions, external calls, recursion, loop termination) discharged by affine abstract interpretation: dominating-branch facts, path joins, loop-phi invariants, quotient facts, callee ensures/requires, Fourier-Motzkin entailment; three reviewed lemmas with machine-checked premises",
+        "Every panic-capable operation and loop reachable from the five entry points carries an obligation; all must be discharged (undischarged = violation). Covers all inputs because the argument is over symbolic lengths, not sampled frames.",
+        "allow-listed stdlib/crc24q callees do not panic; API preconditions (non-nil receivers/channel); lengths < 2^28",
+        "DESIGN.md 4.7",
+    ),
     "C09": (
         "static concurrency-structure analysis: channel close-site ownership, single-sender, fan-out path rule, completion-on-close dominance, termination chain, go-operand confinement, Kahn-determinism effect check",
         "Decides the ownership/ordering/completion/confinement discipline that makes the pipeline schedule-independent (all schedules, all chunkings): one closer per channel, one sender per channel, synchronous in-order fan-out of the received value to every non-nil consumer, return only on closed channel, no shared mutable state. Does not execute schedules.",
